@@ -138,9 +138,6 @@ func TestCrashImages(t *testing.T) {
 			if commit {
 				if err != nil {
 					sig := ""
-					if p.prunes > 1 {
-						sig = sigPruneTwice
-					}
 					e.failf(sig, "Update returned %v for a closure that returned nil", err)
 				}
 				p.m.Commit()
